@@ -485,8 +485,9 @@ impl Dependencies for Expr {
                 lhs_deps.append(&mut index.net_dependencies());
                 lhs_deps
             }
-            E::DotLookup { lhs, .. } => {
-                let x = lhs.net_dependencies();
+            E::DotLookup { lhs, dot_chain, .. } => {
+                let mut x = lhs.net_dependencies();
+                x.append(&mut dot_chain.net_dependencies());
                 x
             }
             E::ReferenceToSelf(..) => vec![],
